@@ -25,7 +25,20 @@ Definition to_res (o : iobs) : res proposal :=
   | IPanic => Panic
   end.
 
-Inductive case := Case (sk : skind) (dk : dkind) (d : deposit) (impl : iobs).
+(* Case: one deposit through fresh handler objects.
+   Seq: a history over ONE set of long-lived objects (Listener / ETHDepositHandler per source chain, substrate
+   and btc deposit handlers, one message handler per destination): the pool of deposits, and for every step in
+   which a deposit was handled: (pool index, was the lookup/fetch made to fail, the readings of the proposal
+   prepared for it - right after it was built, when its batch was written, at the end). *)
+Inductive case :=
+| Case (sk : skind) (dk : dkind) (d : deposit) (impl : iobs)
+| Seq (pool : list (skind * dkind * deposit)) (readings : list iobs) (occs : list (nat * bool * list nat)).
+
+(* the distinct readings of a history are listed once (decoded once); a step refers to them by index *)
+Definition to_occ (tbl : list (res proposal)) (o : nat * bool * list nat) : occ :=
+  mkOcc (fst (fst o)) (snd (fst o)) (map (fun k => nth k tbl Panic) (snd o)).
+Definition to_occs (readings : list iobs) (occs : list (nat * bool * list nat)) : list occ :=
+  let tbl := map to_res readings in map (to_occ tbl) occs.
 
 Definition agree (c : case) : bool :=
   match c with
@@ -38,10 +51,16 @@ Definition agree (c : case) : bool :=
       | Panic, Panic => true
       | _, _ => false
       end
+  | Seq pool readings occs => seq_agree pool (to_occs readings occs)
   end.
 
+(* Seq: the per-deposit judge on every reading of every step (seq_ok_fast = seq_ok = forallb of spec_ok,
+   Properties/C01.v: C01_seq_judge_pointwise) *)
 Definition judge (c : case) : bool :=
-  match c with Case sk dk d impl => spec_ok sk dk d (to_res impl) end.
+  match c with
+  | Case sk dk d impl => spec_ok sk dk d (to_res impl)
+  | Seq pool readings occs => seq_ok_fast pool (to_occs readings occs)
+  end.
 
 Definition tag (c : case) : N :=
   match c with
@@ -50,6 +69,7 @@ Definition tag (c : case) : N :=
       + (match dk with DEvm => 0 | DSub => 1 | DBtcK => 2 end) * 5
       + (if wf sk dk d then 0 else
          match relay sk dk d with Ok _ => 1 | Err => 2 | Panic => 3 | Unspec => 4 end)
+  | Seq pool _ occs => 200 + N.min 40 (N.of_nat (List.length occs))
   end.
 
 Definition check_all := check_cases agree judge tag.
